@@ -11,6 +11,15 @@ Theorem C09_cal_slice_exact : forall time b e i,
 Proof. exact cal_slice_exact. Qed.
 Print Assumptions C09_cal_slice_exact.
 
+(** widening the window never drops a step, and the cut points never leave the axis
+    (any axis, any dates: no out-of-range slice can be handed to the kernel) *)
+Theorem C09_cal_nested_and_in_range : forall time b e b' e',
+  (b' <= b -> e <= e' ->
+   fst (cal_indices time b' e') <= fst (cal_indices time b e) /\ snd (cal_indices time b e) <= snd (cal_indices time b' e')) /\
+  (0 <= fst (cal_indices time b e) <= Z.of_nat (length time) /\ 0 <= snd (cal_indices time b e) <= Z.of_nat (length time)).
+Proof. intros time b e b' e'. split; [intros Hb He; now apply cal_indices_nested|apply cal_indices_range]. Qed.
+Print Assumptions C09_cal_nested_and_in_range.
+
 (** recorded attributes: the first step >= begin and the last step <= end *)
 Theorem C09_cal_attrs : forall time groups b e c,
   StronglySorted Z.lt time -> spi_calibration time groups b e = Some c ->
